@@ -423,29 +423,49 @@ fn main() {
     if want("docs") {
         let nmax = families.iter().map(|f| f.nmax).max().unwrap_or(0);
         for n in 1..=nmax {
-            // texts over k symbols are texts over k+1 symbols too (and the pattern alphabet of the
-            // larger family contains that of the smaller): each length is enumerated once, with
-            // the largest plain alphabet whose bound reaches it
-            let plain_pick = families
+            // texts over k symbols are texts over k+1 symbols too, and the pattern alphabet of the
+            // larger family contains that of the smaller.  A smaller plain alphabet is therefore
+            // skipped at a length where a larger one already gets the full product, or where both
+            // would get the reduced pattern sets; it is kept where it still fits the full product
+            // and the larger one does not.
+            let level = |f: &Family| -> (u64, u64, u64, bool) {
+                let k = f.symbols.len() as u64;
+                let texts = k.pow(n as u32);
+                let bsets = if n <= bset_n {
+                    1u64 << (n - 1)
+                } else {
+                    boundary_sets(n, false).len() as u64
+                };
+                let k1 = k + 1;
+                let patterns = (k1.pow(n as u32 + 2) - 1) / (k1 - 1);
+                let product = texts.saturating_mul(bsets).saturating_mul(patterns);
+                (texts, bsets, patterns, product <= budget || n > bset_n)
+            };
+            let mut plain: Vec<usize> = families
                 .iter()
                 .enumerate()
                 .filter(|(_, f)| f.name.starts_with("sigma") && n <= f.nmax)
-                .max_by_key(|(_, f)| f.symbols.len())
-                .map(|(i, _)| i);
+                .map(|(i, _)| i)
+                .collect();
+            plain.sort_by_key(|i| std::cmp::Reverse(families[*i].symbols.len()));
+            let mut keep: Vec<usize> = vec![];
+            let mut larger_full = false;
+            for (rank, i) in plain.iter().enumerate() {
+                let full = level(&families[*i]).3;
+                if larger_full || (rank > 0 && !full) {
+                    continue;
+                }
+                keep.push(*i);
+                larger_full |= full;
+            }
             for (fi, f) in families.iter().enumerate() {
                 if n > f.nmax {
                     continue;
                 }
-                if f.name.starts_with("sigma") && Some(fi) != plain_pick {
+                if f.name.starts_with("sigma") && !keep.contains(&fi) {
                     continue;
                 }
-                let k = f.symbols.len() as u64;
-                let texts = k.pow(n as u32);
-                let bsets = if n <= bset_n { 1u64 << (n - 1) } else { boundary_sets(n, false).len() as u64 };
-                let k1 = k + 1;
-                let patterns = (k1.pow(n as u32 + 2) - 1) / (k1 - 1);
-                let product = texts.saturating_mul(bsets).saturating_mul(patterns);
-                let full = product <= budget || n > bset_n;
+                let (texts, bsets, patterns, full) = level(f);
                 levels.push(json!({
                     "family": f.name, "n": n, "texts": texts, "boundary_sets_per_text": bsets,
                     "patterns_per_document": patterns,
